@@ -362,6 +362,74 @@ def _schedule_traffic(rr):
         world.loop.at(t0 + item["t_us"] / 1e6, fire, idx, item)
 
 
+async def _start_second_line(rr, sl):
+    """A second Tridonic gateway (another DALI line) driven by a second driver object in the same
+    process and loop: its own device model, bus and traffic; optionally it is lost in the middle.
+    Whatever happens on line B must leave line A alone - and the other way round."""
+    world = rr.world
+    busB = ScriptedBus(world, {})
+    devB = TridonicGW(world, busB, BusLine(), Latency(world, "nominal", ADVERSARIAL["tridonic"]))
+    devB.name = "tridonicB"
+    devB.fd_base = 1000
+    hidmod.os.second = devB
+    rr.devB = devB
+    drvB = hidmod.tridonic("/dev/dali/daliusb-lineB", reconnect_interval=0.05)
+    rr.driverB = drvB
+    rr.lineB = []
+    drvB.connect()
+    try:
+        await asyncio.wait_for(drvB.connected.wait(), 30)
+    except Exception as e:                          # noqa: BLE001
+        rr.lineB.append(("connect", "raised", e))
+        return
+
+    async def traffic():
+        await asyncio.sleep(sl.get("start_us", 0) / 1e6)
+        for i, (spec, val, gap) in enumerate(sl["sends"]):
+            unit = "lineB.%d" % i
+            tok = world.unit.set(unit)
+            busB.outcomes[unit] = {"%d:%d" % (spec[0], spec[1]): ["value", val]}
+            try:
+                res = await asyncio.wait_for(drvB.send(cmds.mk_cmd(spec)), 60)
+                rr.lineB.append((unit, "ok", res, val))
+            except BaseException as e:              # noqa: BLE001
+                rr.lineB.append((unit, "raised", e, val))
+                if isinstance(e, asyncio.CancelledError):
+                    raise
+            finally:
+                try:
+                    world.unit.reset(tok)
+                except ValueError:
+                    pass
+            await asyncio.sleep(gap / 1e6)
+    rr.lineB_task = asyncio.get_running_loop().create_task(traffic(), name="lineB")
+    if sl.get("lose_at_us") is not None:
+        world.loop.at(world.loop.time() + sl["lose_at_us"] / 1e6,
+                      lambda: devB.lose("eof", sl.get("return_after_us", 80000)))
+    world.probe("second-gateway-in-the-same-process")
+
+
+def judge_second_line(rr):
+    """-> list of (clause, detail, site) for line B: its sends return its own gateway's answers; an
+    exception is in order only while its own gateway is away."""
+    out = []
+    devB = getattr(rr, "devB", None)
+    if devB is None:
+        return out
+    lostB = bool(devB.losses)
+    for unit, st, res, val in getattr(rr, "lineB", []):
+        if st == "raised":
+            if not (lostB and type(res).__name__ == "CommunicationError"):
+                out.append(("second-line-send-failed", "%s on the other gateway raised %r (that gateway %s)" % (
+                    unit, res, "was lost in this run" if lostB else "was healthy"), type(res).__name__))
+        else:
+            raw = getattr(res, "raw_value", None)
+            if raw is None or raw.error or raw.as_integer != val:
+                out.append(("second-line-answer-wrong", "%s on the other gateway: its bus answered %d, send returned %s" % (
+                    unit, val, raw), "value"))
+    return out
+
+
 def make_driver(plan, world):
     d = _make_driver(plan, world)
     k = plan["knobs"]
@@ -457,6 +525,8 @@ def run(plan, hooks=None):
             rr.connect_error = e
             return
         rr.t_connected = world.loop.time()
+        if plan.get("second_line") and plan["driver"] == "tridonic":
+            await _start_second_line(rr, plan["second_line"])
         if "connected" in hooks:
             hooks["connected"](rr)
         _schedule_traffic(rr)
@@ -471,6 +541,11 @@ def run(plan, hooks=None):
             for t in done:
                 if not t.cancelled() and t.exception() is not None:
                     raise HarnessError("caller task failed: %r" % t.exception())
+        if getattr(rr, "lineB_task", None) is not None:
+            try:
+                await asyncio.wait_for(rr.lineB_task, 120)
+            except Exception:                       # noqa: BLE001
+                pass
         tr = plan.get("traffic") or []
         if tr:
             # let the whole foreign history play out (frames, answers, reports)
